@@ -55,6 +55,18 @@ def _callbacks(log):
 STYLES = ["named", "varargs", "lambda-varargs", "node-rest", "varargs-kwargs", "default", "extra-default", "posonly", "kwargs-tail",
           "method", "method-varargs", "object", "object-varargs", "classmethod", "staticmethod-varargs",
           "partial", "partial-kw", "partial-varargs", "wraps-varargs", "wraps-named", "wraps-twice-varargs"]
+# ---- callbacks that are OBJECTS WITH A TRUTH VALUE / LENGTH OF THEIR OWN: a call log that is a list, an accumulator that is a dict
+# (both empty, hence falsy, until first called), objects defining __bool__ / __len__ (always falsy, always truthy, or - like an
+# array - refusing to be asked). Whether a callback was GIVEN is not a question about its truth value.
+TRUTH_STYLES = ["list-log", "dict-acc", "bool-false", "len0", "bool-true", "bool-raises"]
+# ---- which of the two callbacks are given, and how the other one is left out
+GIVEN = ["both", "enter", "leave", "enter+None", "None+leave"]
+# ---- "all start nodes": the same start node, spelled in every way an index comes to hand (`root: int | np.integer`)
+ROOT_SPELLINGS = ["int", "omitted", "id-element", "pid-element", "flatnonzero", "argmax", "node.idx", "node.id",
+                  "np.int8", "np.uint8", "np.int16", "np.uint16", "np.int32", "np.uint32", "np.int64", "np.uint64", "np.intp"]
+# ---- Tree.Node.traverse: the same node, its handle obtained in every way the API hands out nodes
+NODE_VIA = ["node(int)", "getitem(int)", "node(np.int32)", "getitem(np.int64)", "iter", "soma", "child-of-parent", "parent-of-child",
+            "tips", "seen-in-traversal"]
 _ABSENT = object()
 
 
@@ -135,6 +147,39 @@ def _styled(fn, style, miscalled, absent):
 
         return {"method": Recorder().on, "method-varargs": Recorder().on_any, "object": Callable2(), "object-varargs": CallableAny(),
                 "classmethod": Recorder.on_cls, "staticmethod-varargs": Recorder.on_static}[style]
+    if style in TRUTH_STYLES:
+        class ListLog(list):
+            def __call__(self, node, value):
+                self.append(_nid(node))
+                return call(node, value)
+
+        class DictAcc(dict):
+            def __call__(self, node, value):
+                self[_nid(node)] = self.get(_nid(node), 0) + 1
+                return call(node, value)
+
+        class Obj:
+            def __call__(self, node, value):
+                return call(node, value)
+
+        class BoolFalse(Obj):
+            def __bool__(self):
+                return False
+
+        class BoolTrue(Obj):
+            def __bool__(self):
+                return True
+
+        class Len0(Obj):
+            def __len__(self):
+                return 0
+
+        class BoolRaises(Obj):
+            def __bool__(self):
+                raise ValueError("the truth value of this callback is ambiguous")
+
+        return {"list-log": ListLog, "dict-acc": DictAcc, "bool-false": BoolFalse, "len0": Len0, "bool-true": BoolTrue,
+                "bool-raises": BoolRaises}[style]()
     if style == "partial":
         return functools.partial(lambda tag, node, value: call(node, value), "tag")
     if style == "partial-kw":
@@ -215,6 +260,138 @@ def _large_branched(rng, band, shape, numbering, api):
     return {"class": f"large-{band}/{shape}/{numbering}/{api}", "n": n, "pids": pids, "root": root, "api": api, "big": True}
 
 
+def _small_tree(rng, nmin=1):
+    n = max(nmin, rng.choice([1, 2, 3, 4, 6, 9, 14, 25, 60, 100]))
+    pids = gen.parents_sorted(rng, n, gen.pick_shape(rng, rng.randrange(len(gen.SHAPES))))
+    if len(pids) < nmin:
+        pids = gen.parents_sorted(rng, nmin, "random")
+    if rng.random() < 0.6:
+        pids = gen.renumber_root0(rng, pids)
+    return pids
+
+
+def _families(rng, quick):
+    """the input families around the traversal's ARGUMENTS (the trees themselves are small and of every shape / numbering):
+    how the start node is spelled, how the node handle was obtained, which callbacks are given, what kind of object they are"""
+    out = []
+
+    def case(klass, pids, root, api, **more):
+        c = {"class": klass, "n": len(pids), "pids": pids, "root": root, "api": api,
+             "esig": rng.choice(STYLES), "lsig": rng.choice(STYLES), "given": "both"}
+        c.update(more)
+        return c
+
+    # (1) every spelling of the start node, through swc_utils.traverse(root=...) and Tree.traverse(root=...)
+    for _ in range(1 if quick else 4):
+        for sp in ROOT_SPELLINGS:
+            for api in ("tree", "swc_utils"):
+                if sp.startswith("node.") and api == "swc_utils":
+                    continue
+                pids = _small_tree(rng, 2 if sp == "pid-element" else 1)
+                nn = len(pids)
+                more = {"rootas": sp}
+                if sp == "omitted":
+                    root = 0
+                elif sp == "pid-element":
+                    more["child"] = rng.randrange(1, nn)
+                    root = pids[more["child"]]
+                else:
+                    root = rng.randrange(nn)
+                given = rng.choice(GIVEN)
+                out.append(case(f"rootas/{sp}/{api}", pids, root, api, given=given, **more))
+    # (2) every way to a node handle, for Tree.Node.traverse
+    for _ in range(2 if quick else 6):
+        for via in NODE_VIA:
+            pids = _small_tree(rng, 2 if via in ("child-of-parent", "parent-of-child") else 1)
+            nn = len(pids)
+            more = {"via": via}
+            if via == "soma":
+                root = 0
+            elif via == "child-of-parent":
+                root = rng.randrange(1, nn)
+            elif via == "parent-of-child":
+                more["child"] = rng.randrange(1, nn)
+                root = pids[more["child"]]
+            elif via == "tips":
+                root = rng.choice(sorted(set(range(nn)) - set(pids)))
+            else:
+                root = rng.randrange(nn)
+            out.append(case(f"nodevia/{via}", pids, root, "node", given=rng.choice(GIVEN), **more))
+    # (3) which callbacks are given (callables of the ordinary kinds), all three entry points
+    for _ in range(2 if quick else 6):
+        for given in GIVEN:
+            for api in ("swc_utils", "tree", "node"):
+                pids = _small_tree(rng)
+                out.append(case(f"given/{given}/{api}", pids, rng.randrange(len(pids)), api, given=given))
+    # (4) callbacks with a truth value of their own: every kind on either side next to an ordinary one and alone (through
+    # swc_utils.traverse, which receives the object itself, every time; the Tree entry points in turn), and pairs of them
+    j = 0
+    for _ in range(1 if quick else 3):
+        for st in TRUTH_STYLES:
+            for side in ("enter", "leave"):
+                for given, api in (("both", "swc_utils"), (side, "swc_utils"), (("both", side)[j % 2], ("tree", "node")[j // 2 % 2])):
+                    j += 1
+                    pids = _small_tree(rng)
+                    sig = {"esig": st} if side == "enter" else {"lsig": st}
+                    out.append(case(f"truth/{st}-as-{side}/{given}/{api}", pids, rng.randrange(len(pids)), api, given=given, **sig))
+        for _ in range(6):
+            pids = _small_tree(rng)
+            a, b = rng.choice(TRUTH_STYLES), rng.choice(TRUTH_STYLES)
+            api = rng.choice(["swc_utils", "swc_utils", "tree", "node"])
+            out.append(case(f"truth/pair/{api}", pids, rng.randrange(len(pids)), api, esig=a, lsig=b))
+    return out
+
+
+def _spell_root(sp, case, ids, pids, tree):
+    """the start node `case["root"]` as an index of kind `sp` (ids / pids: the tree's own columns)"""
+    root = case["root"]
+    if sp == "int":
+        return root
+    if sp == "id-element":                       # `for k in tree.id(): ...`
+        return ids[root]
+    if sp == "pid-element":                      # walking up: the parent entry of a child
+        return pids[case["child"]]
+    if sp == "flatnonzero":
+        return np.flatnonzero(ids == root)[0]
+    if sp == "argmax":
+        return np.argmax(ids == root)
+    if sp == "node.idx":
+        return tree.node(root).idx if case["n"] % 2 else tree[root].idx
+    if sp == "node.id":
+        return tree[root].id
+    if sp.startswith("np."):
+        return getattr(np, sp[3:])(root)
+    raise ValueError(sp)
+
+
+def _node_via(t, via, case):
+    """a handle of node `case["root"]` of tree `t`, obtained in the way `via`"""
+    root = case["root"]
+    if via == "node(int)":
+        return t.node(root)
+    if via == "getitem(int)":
+        return t[root]
+    if via == "node(np.int32)":
+        return t.node(t.id()[root])
+    if via == "getitem(np.int64)":
+        return t[np.int64(root)]
+    if via == "iter":
+        return list(t)[root]
+    if via == "soma":
+        return t.soma()
+    if via == "child-of-parent":
+        return next(c for c in t.node(case["pids"][root]).children() if int(c.id) == root)
+    if via == "parent-of-child":
+        return t.node(case["child"]).parent()
+    if via == "tips":
+        return next(c for c in t.get_tips() if int(c.id) == root)
+    if via == "seen-in-traversal":
+        seen = {}
+        t.traverse(enter=lambda nd, pv: seen.setdefault(int(nd.id), nd))
+        return seen[root]
+    raise ValueError(via)
+
+
 class Trav(Suite):
     name = "c04.trav"
 
@@ -270,6 +447,7 @@ class Trav(Suite):
             root = rng.choice([0, 0, q, pre[i], i])
             out.append({"class": f"edited/{rng.choice(['tree', 'node'])}", "n": nn, "pids": post, "pre_pids": pre, "edit": [i, q],
                         "root": root, "api": rng.choice(["tree", "node"]), "esig": rng.choice(STYLES), "lsig": rng.choice(STYLES)})
+        out.extend(_families(rng, tier == "quick" and not widen))
         # deeply NESTED furcations (a comb: every spine node also carries a tip): depth of the furcation nesting,
         # not only of the chain, must not be bounded by the interpreter's recursion limit
         m = 3000 if tier == "quick" and not widen else 20000
@@ -304,8 +482,26 @@ class Trav(Suite):
         miscalled = {"E": [], "L": []}
         as_enter = lambda f: _styled(f, case.get("esig", "named"), miscalled["E"], lambda: None)
         as_leave = lambda f: _styled(f, case.get("lsig", "named"), miscalled["L"], list)
+        given = case.get("given", "both")
+
+        def cbs(e, l):
+            kw = {}
+            if given in ("both", "enter", "enter+None"):
+                kw["enter"] = as_enter(e)
+            if given in ("both", "leave", "None+leave"):
+                kw["leave"] = as_leave(l)
+            if given == "enter+None":
+                kw["leave"] = None
+            if given == "None+leave":
+                kw["enter"] = None
+            return kw
+
+        sp = case.get("rootas", "int")
         if api == "swc_utils":
-            ret = swc_utils.traverse((ids, p), enter=as_enter(enter), leave=as_leave(leave), root=root)
+            kw = cbs(enter, leave)
+            if sp != "omitted":
+                kw["root"] = _spell_root(sp, case, ids, p, None)
+            ret = swc_utils.traverse((ids, p), **kw)
         else:
             t = gen.make_tree({"n": n, "pids": case.get("pre_pids", pids), "types": [1] * n, "xyz": [[0, 0, 0]] * n, "r": [1] * n})
             if "pre_pids" in case:
@@ -332,13 +528,20 @@ class Trav(Suite):
                     out = leave(nd.id, vals)
                     ks.clear()
                     return (nd, out)
+            kw = cbs(e2, l2)
             if api == "tree":
-                ret = t.traverse(enter=as_enter(e2), leave=as_leave(l2), root=root)
+                if sp != "omitted":
+                    kw["root"] = _spell_root(sp, case, t.id(), t.pid(), t)
+                ret = t.traverse(**kw)
             else:
-                ret = t.node(root).traverse(enter=as_enter(e2), leave=as_leave(l2))
-        if isinstance(ret, tuple):
+                ret = _node_via(t, case.get("via", "node(int)"), case).traverse(**kw)
+        if isinstance(ret, tuple) and len(ret) == 2:
             ret = ret[1]
-        res = {"log": log, "ret": int(ret)}
+        try:
+            ret = None if ret is None else int(ret)
+        except Exception:  # noqa: BLE001 - not a value of our callbacks: the oracle reports it
+            ret = f"<{type(ret).__name__}> {str(ret)[:80]}"
+        res = {"log": log, "ret": ret}
         if miscalled["E"] or miscalled["L"]:
             res["miscalled"] = miscalled
         if api != "swc_utils":
@@ -346,7 +549,7 @@ class Trav(Suite):
         return res
 
     def lines(self, case, res):
-        if case.get("big") or "exc" in res:
+        if case.get("big") or "exc" in res or case.get("given", "both") != "both" or not isinstance(res.get("ret"), int):
             return []
         n = case["n"]
         line = f"trav ids={gen.ints(range(n))} pids={gen.ints(case['pids'])} root={case['root']}"
@@ -355,10 +558,24 @@ class Trav(Suite):
         return [(line, want), ("g" + line, want)]
 
     def oracle(self, case, res):
+        try:
+            return self._oracle(case, res)
+        except Exception as e:  # noqa: BLE001 - a result the oracle cannot read is not a result of a traversal as the property describes it
+            return [("malformed-result", f"the result cannot be judged ({type(e).__name__}: {e}): {str(res)[:300]}")]
+
+    def _oracle(self, case, res):
         n, pids, root = case["n"], case["pids"], case["root"]
+        given = case.get("given", "both")
+        how = (f"start node {root} given as {case.get('rootas', 'int') if case['api'] != 'node' else 'handle via ' + case.get('via', 'node(int)')}"
+               f" to {case['api']}, callbacks given: {given} (enter: '{case.get('esig', 'named')}', leave: '{case.get('lsig', 'named')}')")
+        if not isinstance(res, dict):
+            return [("malformed-result", f"no result: {str(res)[:200]}")]
         if "exc" in res:
             key = "recursion-limit" if res["exc"] == "RecursionError" else "traverse-raises"
-            return [(key, f"traversal raised {res['exc']}: {res.get('msg')}")]
+            return [(key, f"traversal raised {res['exc']}: {res.get('msg')} [{how}]")]
+        if not isinstance(res.get("log"), list):
+            return [("malformed-result", f"no call log: {str(res)[:200]}")]
+        want_e, want_l = given in ("both", "enter", "enter+None"), given in ("both", "leave", "None+leave")
         kids = {}
         for i, p in enumerate(pids):
             kids.setdefault(p, []).append(i)
@@ -388,20 +605,24 @@ class Trav(Suite):
         sub = sorted(facts)
         eids = sorted(i for _, i, _ in ent)
         lids = sorted(i for _, i, _ in lev)
-        if eids != sub:
+        if not want_e and eids:
+            out.append(("enter-once", f"enter was not given, yet called on {brief(eids)} [{how}]"))
+        if not want_l and lids:
+            out.append(("leave-once", f"leave was not given, yet called on {brief(lids)} [{how}]"))
+        if want_e and eids != sub:
             if len(sub) > 40:
                 se, ss = set(eids), set(sub)
                 out.append(("enter-once", f"enter called {len(eids)} times on {len(se)} nodes; the subtree has {len(sub)} nodes; "
                                           f"never entered: {brief(sorted(ss - se))}; outside the subtree: {brief(sorted(se - ss))}"))
             else:
-                out.append(("enter-once", f"enter called on {eids}; subtree is {sub}"))
-        if lids != sub:
+                out.append(("enter-once", f"enter called on {eids}; subtree is {sub} [{how}]"))
+        if want_l and lids != sub:
             if len(sub) > 40:
                 sl, ss = set(lids), set(sub)
                 out.append(("leave-once", f"leave called {len(lids)} times on {len(sl)} nodes; the subtree has {len(sub)} nodes; "
                                           f"never left: {brief(sorted(ss - sl))}; outside the subtree: {brief(sorted(sl - ss))}"))
             else:
-                out.append(("leave-once", f"leave called on {lids}; subtree is {sub}"))
+                out.append(("leave-once", f"leave called on {lids}; subtree is {sub} [{how}]"))
         first_e, first_l = {}, {}
         for k, i, _ in ent:
             first_e.setdefault(i, k)
@@ -434,8 +655,8 @@ class Trav(Suite):
             if len(more) > 12:
                 break
         out += more
-        if res["ret"] != ret:
-            out.append(("return-value", f"returned {res['ret']}, start node's value is {ret}"))
+        if want_l and res.get("ret") != ret:          # the start node's value is the value its leave call returned
+            out.append(("return-value", f"returned {res.get('ret')}, start node's value is {ret} [{how}]"))
         ob = res.get("nodeobs") or {"P": {}, "C": {}}
         for i, p in ob["P"].items():
             if int(p) != pids[int(i)]:
